@@ -27,7 +27,7 @@
 extern int sim_spawn_thread(pthread_t *out, const pthread_attr_t *attr, void *(*fn)(void *), void *arg, int is_actor);
 extern void sim_park_cond(int (*cond)(void *), void *arg, int64_t deadline_ns);
 
-#define MAX_CHILD 256
+#define MAX_CHILD 8192
 #define PID_BASE 100000
 #define MAX_OPS 32
 
@@ -369,7 +369,11 @@ static int spawn_common(pid_t *pid, const char *path, const posix_spawn_file_act
     int idx = nchildren++;
     *pid = PID_BASE + idx;
     sim_hist("!child", "spawn %d nops=%d in=%d out=%d err=%d", idx, n, tab[0] >= 0, tab[1] >= 0, tab[2] >= 0);
-    int err = sim_spawn_thread(NULL, NULL, actor_main, c, 1);
+    pthread_attr_t at;
+    pthread_attr_init(&at);
+    pthread_attr_setdetachstate(&at, PTHREAD_CREATE_DETACHED);
+    int err = sim_spawn_thread(NULL, &at, actor_main, c, 1);
+    pthread_attr_destroy(&at);
     if (err) return err;
     return 0;
 }
